@@ -14,7 +14,7 @@ import tempfile
 
 VERIF = os.path.dirname(os.path.dirname(os.path.abspath(__file__)))
 REPO = "/repo"
-OUT = "/tmp/wt-out4"
+OUT = os.environ.get("KEEP_OUT", "/tmp/wt-out4")
 AREAS = {
     "F1": ["C03", "C04", "C09", "C13", "C19", "C12"],
     "F2": ["C03", "C04", "C05", "C09", "C12", "C13", "C19", "C15"],
@@ -24,6 +24,13 @@ AREAS = {
     "F6": ["C14", "C15", "C16", "C05", "C03", "C10"],
     "F7": ["C10", "C11", "C13", "C16"],
     "F8": ["C20", "C12", "C08"],
+    # second converse campaign (round G): the areas this session's machinery touches
+    "G1": ["C03", "C04", "C05", "C06", "C12", "C13", "C19"],
+    "G2": ["C17", "C18", "C13", "C01", "C08", "C14", "C16"],
+    "G3": ["C01", "C07", "C08", "C16", "C02", "C17"],
+    "G4": ["C20", "C14"],
+    "G5": ["C08", "C12", "C20", "C19", "C13"],
+    "G6": ["C05", "C10", "C11", "C13", "C16", "C03", "C14"],
 }
 
 
